@@ -316,6 +316,42 @@ def loadDddmpU (f : DddmpFile) : Except Err (Mgr × List (Int × Int)) :=
 def loadDddmp (f : DddmpFile) : Except Err Mgr :=
   (loadDddmpU f).map (·.1)
 
+/-! ### semantics of a file (the SPECIFICATION `load` is proved against; executable, so
+that the driver can print it and the harness can compare it with its own evaluator) -/
+
+/-- the variable a node line is labelled with: the one `levels` puts at the level
+that `info2permid` gives to the `info` column -/
+def dddmpVarOf (i2p levels : List (Tok × Int)) (info : Tok) : Option Tok :=
+  match dictGet i2p info with
+  | none => none
+  | some k => (levels.find? (fun p => p.2 = k)).map (·.1)
+
+/-- value of the (signed) node number `x` of a file under the assignment `α` of the
+variable NAMES, read off the node list: a line labelled `T` is the constant true,
+a line `u info _ then else` is `if info then [then] else [else]`, a negative number
+is the complement (an unlisted number or exhausted `fuel` reads as false, complemented
+for a negative number).  `fuel` bounds the depth. -/
+def evalFileF (i2p levels : List (Tok × Int)) (nodes : List DddmpNode) (α : String → Bool) :
+    Nat → Int → Bool
+  | 0, x => decide (x < 0)
+  | fuel + 1, x =>
+    (decide (x < 0)) ^^
+      (match nodes.find? (fun n => n.u = (x.natAbs : Int)) with
+      | none => false
+      | some n =>
+        if n.info = .str "T" then true else
+          match dddmpVarOf i2p levels n.info with
+          | none => false
+          | some var =>
+            if α var.show then evalFileF i2p levels nodes α fuel n.thn
+            else evalFileF i2p levels nodes α fuel n.els)
+
+/-- `evalFileF` with the tables of the file's own header and depth `nvars + 2` -/
+def evalFile (f : DddmpFile) (α : String → Bool) (x : Int) : Bool :=
+  match dddmpHeader f with
+  | .ok (i2p, levels, _) => evalFileF i2p levels f.nodes α ((f.nvars.getD 0 + 2).toNat) x
+  | .error _ => false
+
 /-! ### the repaired loader (NOT the current code)
 
 `bdd.roots.update(umap[abs(r)] if r > 0 else -umap[abs(r)] for r in roots)`: what `load`
@@ -388,5 +424,15 @@ def parseDddmpField (f : DddmpFile) (kv : String) : Option DddmpFile :=
 
 def parseDddmpFile (fields : List String) : Option DddmpFile :=
   fields.foldlM parseDddmpField {}
+
+/-- truth table (bit `a` = value under the assignment in which the `k`-th name is bit `k`
+of `a`; the convention of `harness/lib.var_masks`) of the file's node number `x` -/
+def dddmpTruthTable (f : DddmpFile) (names : List String) (x : Int) : Nat :=
+  (List.range (2 ^ names.length)).foldl (fun acc a =>
+    let α : String → Bool := fun s =>
+      match names.idxOf? s with
+      | some k => (a >>> k) % 2 == 1
+      | none => false
+    if evalFile f α x then acc ||| (1 <<< a) else acc) 0
 
 end DD
